@@ -162,6 +162,16 @@ func (s *Server) Exec(q string, args ...any) {
 func (s *Server) Truncate() {
 	s.Settle()
 	s.Exec("DELETE FROM " + TableTuples)
+	// keto_uuid_mappings is append-only in keto (a name's id is UUIDv5 of network and string) and
+	// is deliberately left alone: deleting mappings behind the server's back would make the
+	// harness incompatible with any (correct) caching of mappings inside the server.
+}
+
+// TruncateAll also empties keto_uuid_mappings (only for checks whose states need a database that has
+// never seen any name; nothing may rely on the server noticing).
+func (s *Server) TruncateAll() {
+	s.Settle()
+	s.Exec("DELETE FROM " + TableTuples)
 	s.Exec("DELETE FROM " + TableMappings)
 }
 
